@@ -35,7 +35,7 @@ func coqBool(b bool) string {
 
 // observations
 type obs struct {
-	kind  string // unit nil item bool list len panic snap
+	kind  string // unit nil item bool list len panic snap stuck
 	item  kv
 	b     bool
 	list  []kv
@@ -64,6 +64,8 @@ func (o obs) coq() string {
 		return "OLen " + z(o.n)
 	case "panic":
 		return "OPanic"
+	case "stuck":
+		return "OStuck"
 	case "snap":
 		s := make([]string, len(o.snap))
 		for i, e := range o.snap {
@@ -93,6 +95,8 @@ func (o obs) String() string {
 		return fmt.Sprint(o.n)
 	case "panic":
 		return "PANIC " + o.panic
+	case "stuck":
+		return "NEVER RETURNS (found parked in sync.RWMutex Lock/RLock inside this wrapper method, no other call in flight)"
 	case "snap":
 		s := []string{}
 		for _, e := range o.snap {
